@@ -65,7 +65,8 @@ func VH_c20_usecases() {
 			if !verifrt.Concrete(verifrt.Bool(tag + ".has")) {
 				continue
 			}
-			u := vhUC{has: true, version: vhVersions[verifrt.Choice(tag+".version", 2)], avail: verifrt.Concrete(verifrt.Bool(tag + ".available"))}
+			// version and availability stay symbolic: the code only carries them around
+			u := vhUC{has: true, version: verifrt.Str(tag+".version", vhVersions...), avail: verifrt.Bool(tag + ".available")}
 			shadow[ea[0]][ea[1]][n] = u
 			sup = append(sup, model.UseCaseSupportType{UseCaseName: util.Ptr(vhUCNames[n]), UseCaseVersion: util.Ptr(model.SpecificationVersionType(u.version)), UseCaseAvailable: util.Ptr(u.avail),
 				ScenarioSupport: []model.UseCaseScenarioSupportType{1}})
@@ -85,15 +86,15 @@ func VH_c20_usecases() {
 	e, a, n := ents[ei], vhActors[ai], vhUCNames[ni]
 	switch op {
 	case "add":
-		ver := vhVersions[verifrt.Choice("version", 2)]
-		av := verifrt.Concrete(verifrt.Bool("available"))
+		ver := verifrt.Str("version", vhVersions...)
+		av := verifrt.Bool("available")
 		e.AddUseCaseSupport(a, n, model.SpecificationVersionType(ver), "", av, []model.UseCaseScenarioSupportType{1, 2})
 		shadow[ei][ai][ni] = vhUC{true, ver, av}
 	case "remove":
 		e.RemoveUseCaseSupport(a, n)
 		shadow[ei][ai][ni] = vhUC{}
 	case "set-availability":
-		av := verifrt.Concrete(verifrt.Bool("available"))
+		av := verifrt.Bool("available")
 		e.SetUseCaseAvailability(a, n, av)
 		if shadow[ei][ai][ni].has {
 			shadow[ei][ai][ni].avail = av
@@ -119,7 +120,11 @@ func VH_c20_usecases() {
 				s, cnt := vhUCFind(got, ents[x], vhActors[y], vhUCNames[z])
 				unique = unique && cnt <= 1
 				if want.has {
-					values = values && s != nil && s.UseCaseVersion != nil && string(*s.UseCaseVersion) == want.version && s.UseCaseAvailable != nil && *s.UseCaseAvailable == want.avail
+					if s == nil || s.UseCaseVersion == nil || s.UseCaseAvailable == nil {
+						values = false
+					} else {
+						values = verifrt.All(values, verifrt.SameStr(string(*s.UseCaseVersion), want.version), verifrt.Iff(*s.UseCaseAvailable, want.avail))
+					}
 				}
 			}
 		}
@@ -153,6 +158,7 @@ func VH_c20_usecases() {
 	}
 	verifrt.Assert("peer-reads-exactly-the-registry", readOK)
 	verifrt.Observe("exact", exact)
+	_ = vhVersions
 }
 
 // two goroutines operate on different entities at the same time: both updates must be present afterwards
